@@ -677,11 +677,14 @@ class _ExecutorManagerThread(threading.Thread):
                 else:
                     del self.pending_work_items[work_id]
                     # Dropping a cancelled work item does not produce any
-                    # event: wake ourself up so that the main loop checks
-                    # again whether the executor is shutting down with no
-                    # pending work item left, instead of waiting forever.
-                    with self.shutdown_lock:
-                        self.thread_wakeup.wakeup()
+                    # event: if it was the last pending one, wake ourself up
+                    # so that the main loop checks again whether the executor
+                    # is shutting down with no pending work item left, instead
+                    # of waiting forever. (Only then: the wakeup pipe is
+                    # drained by this very thread.)
+                    if not self.pending_work_items:
+                        with self.shutdown_lock:
+                            self.thread_wakeup.wakeup()
                     continue
 
     def wait_result_broken_or_wakeup(self):
